@@ -756,11 +756,19 @@ class DCM(np.ndarray):
         (array([ 0.81187135, -0.43801381,  0.38601658]), 0.6742208510527136)
 
         """
-        angle = np.arccos((self.A.trace()-1)/2)
+        S = np.array([self.A[2, 1]-self.A[1, 2], self.A[0, 2]-self.A[2, 0], self.A[1, 0]-self.A[0, 1]])
+        S_norm = np.linalg.norm(S)      # 2*sin(angle)
+        angle = np.arctan2(S_norm, self.A.trace()-1.0)
         axis = np.zeros(3)
-        if angle!=0:
-            S = np.array([self.A[2, 1]-self.A[1, 2], self.A[0, 2]-self.A[2, 0], self.A[1, 0]-self.A[0, 1]])
-            axis = S/(2*np.sin(angle))
+        if self.A.trace() < 1.0:
+            # Beyond a quarter turn S vanishes towards pi; the symmetric part
+            # (R+R^T)/2 - cos*I = (1-cos)*u*u^T gives the axis, S only its sign
+            B = 0.5*(self.A+self.A.T) - 0.5*(self.A.trace()-1.0)*np.identity(3)
+            axis = B[:, np.argmax(np.diag(B))]/np.linalg.norm(B[:, np.argmax(np.diag(B))])
+            if S@axis < 0:
+                axis = -axis
+        elif S_norm != 0:
+            axis = S/S_norm
         return axis, angle
 
     def to_axang(self) -> Tuple[np.ndarray, float]:
